@@ -301,3 +301,35 @@ Proof.
     rewrite (starts_pc_app c' a'' b Hs).
     rewrite IH; auto. discriminate.
 Qed.
+
+(* ---- blank lines at the end of a list of lines *)
+Lemma forallb_repeat : forall (f : ascii -> bool) c n, f c = true -> forallb f (repeat c n) = true.
+Proof. intros f c n H. induction n; simpl; [reflexivity|rewrite H, IHn; reflexivity]. Qed.
+
+
+Lemma join_nl_blanks : forall L m, L <> [] -> join_nl (L ++ repeat [] m) = join_nl L ++ repeat nl m.
+Proof.
+  intros L m HL. induction m.
+  - simpl. rewrite !app_nil_r. reflexivity.
+  - replace (repeat (A:=str) [] (S m)) with (repeat (A:=str) [] m ++ [[]]).
+    2:{ clear. induction m; [reflexivity|]. simpl. rewrite IHm. reflexivity. }
+    rewrite app_assoc. rewrite join_nl_snoc_nil.
+    2:{ destruct L; [congruence|discriminate]. }
+    rewrite IHm. rewrite <- app_assoc. f_equal.
+    clear. induction m; [reflexivity|]. simpl. rewrite IHm. reflexivity.
+Qed.
+
+
+Lemma rstrip_blank_split : forall cs, exists k, cs = rstrip_blank cs ++ repeat [] k /\
+  (rstrip_blank cs = [] \/ last (rstrip_blank cs) [] <> []).
+Proof.
+  induction cs as [|c r IH].
+  - exists 0. split; [reflexivity|left; reflexivity].
+  - destruct IH as [k [E H]]. simpl. destruct (rstrip_blank r) as [|x r'] eqn:Er.
+    + destruct c as [|y c'].
+      * exists (S k). split; [simpl; simpl in E; rewrite <- E; reflexivity|left; reflexivity].
+      * exists k. split; [simpl; simpl in E; rewrite <- E; reflexivity|right; discriminate].
+    + exists k. split; [rewrite <- app_comm_cons; rewrite <- E; reflexivity|right].
+      destruct H as [H|H]; [discriminate|]. exact H.
+Qed.
+
